@@ -1,6 +1,7 @@
 mod c01;
 mod c08;
 mod c05;
+mod c09;
 mod c06;
 mod c10;
 mod c11;
@@ -31,6 +32,7 @@ fn main() {
         "c01" => c01::main(&args),
         "c05" => c05::main(&args),
         "c08" => c08::main(&args),
+        "c09" => c09::main(&args),
         "c06" => c06::main(&args),
         "c10" => c10::main(&args),
         "c12" => c12::main(&args),
